@@ -14,6 +14,7 @@ def run(ctx):
     gr.rule_endianness(ctx, g, "R03.6", "gds21::read::", "gds21::read")
     gr.rule_read_primitives(ctx, g, "R03.6b")
     gr.rule_exact_reads(ctx, g, "R03.7")
+    gr.rule_payload_verbatim(ctx, g, "R03.9")
     # a conformant stream is in particular a stream: the reader must not panic on it (same rule instance set as C10 R10.1)
     from rules import panicrules as pr
     roots = pr.roots_by_short(ctx.F, ("data::GdsLibrary::from_bytes", "data::GdsLibrary::open", "data::GdsLibrary::load"))
